@@ -9,7 +9,7 @@ no new descriptor, empty private TMPDIR, sf_close returned 0, no sanitizer abort
 """
 import re, struct, os, sys
 
-from .. import formats, c03fuzz, lateopen
+from .. import formats, c03fuzz, lateopen, closefault
 from ..core import Violation, modules_for
 
 LEAK_ENV = {"ASAN_OPTIONS": "exitcode=77:detect_leaks=1:allocator_may_return_null=1:abort_on_error=0:leak_check_at_exit=0"}
@@ -870,6 +870,7 @@ def run(ctx):
     mal = gen_malformed(ctx, seeds, rng, 24 if quick else 200, 3 if quick else 1)
     late_found, late_seeds = lateopen.run_for(ctx, "C16", sys.modules[__name__], fmts)     # malformed inputs rejected AFTER each allocating chunk
     scs += lateopen.prefix_scenarios(sys.modules[__name__], late_seeds, quick, rng)          # ... and their accepted counterparts, peeked
+    scs += closefault.scenarios(ctx, sys.modules[__name__], fmts)          # sf_close on failing I/O, every codec: fault at every callback of the close, EFBIG, EBADF
     allsc = scs + mal
     tr = run_scripts(ctx, allsc)
 
